@@ -198,6 +198,40 @@ def authH : Handler := fun inp impl => do
     else match cred with | none => "known-nocred" | some _ => if ok then "known-good" else "known-bad"
   return ({ model := m, agree := some ok == iok, spec := spec, nontrivial := scheme != "", tag := tag } : Verdict).toJson
 
+/-- c12.authseq — a history of attempts and htpasswd reloads on one long-lived basic-auth scheme instance. -/
+def authSeqH : Handler := fun inp impl => do
+  let secrets0 := secretsOf ((inp.getObjVal? "secrets").toOption.getD Json.null)
+  let opsJ := ((inp.getObjVal? "ops").toOption.bind (fun j => j.getArr?.toOption)).getD #[]
+  let ops : List AuthOp := opsJ.toList.map (fun o =>
+    if getStrD o "op" == "reload" then .reload (secretsOf ((o.getObjVal? "secrets").toOption.getD Json.null))
+    else .attempt (credOf o))
+  let verdicts := runAuth secrets0 ops
+  let m := Json.mkObj [("verdicts", Json.arr (verdicts.map (fun b => Json.bool b)).toArray)]
+  let iv : Option (List Bool) := ((impl.getObjVal? "verdicts").toOption.bind (fun j => j.getArr?.toOption)).bind
+    (fun a => a.toList.mapM (fun b => b.getBool?.toOption))
+  -- spec, stated without the model function: walking the history, attempt k is accepted iff the file in force
+  -- lists exactly that (user, password) pair
+  let rec walk (file : List (List Char × List Char)) : List AuthOp → List Bool → Bool
+    | [], [] => true
+    | .reload s :: h, vs => walk s h vs
+    | .attempt c :: h, v :: vs =>
+      (v == (match c with | some (u, p) => file.any (fun (u', p') => u' == u && p' == p) | none => false)) && walk file h vs
+    | _, _ => false
+  let spec := match iv with | some vs => walk secrets0 ops vs | none => false
+  -- class: does a valid login precede (without a reload in between) a different pair with the same concatenation
+  let rec collides (file : List (List Char × List Char)) (seen : List (List Char × List Char)) : List AuthOp → Bool
+    | [] => false
+    | .reload s :: h => collides s [] h
+    | .attempt none :: h => collides file seen h
+    | .attempt (some (u, p)) :: h =>
+      seen.any (fun (u', p') => (u', p') != (u, p) && u' ++ p' == u ++ p) ||
+        collides file (if basicVerdict file (some (u, p)) then (u, p) :: seen else seen) h
+  let hasReload := ops.any (fun o => match o with | .reload _ => true | _ => false)
+  let tag := if collides secrets0 [] ops then "concat-collision-after-valid-login"
+    else if hasReload then "reload" else "plain"
+  return ({ model := m, agree := some verdicts == iv, spec := spec,
+            nontrivial := verdicts.contains true && verdicts.contains false, tag := tag } : Verdict).toJson
+
 /-- c12.gate — the real proxies in front of a counting upstream. The peer address is whatever the kernel
 assigned to the client socket (reported by the harness in `impl.peer`). -/
 def gateH : Handler := fun inp impl => do
@@ -216,12 +250,16 @@ def gateH : Handler := fun inp impl => do
       let ip := (splitHostPort peer.toList).bind (fun h => parseIP (stripZone h))
       accessDeniedTCP rules (.addr ip)
   let authOk ← if isHTTP then authModel inp else pure true
-  let steps : List Step := if isHTTP then [.lookup, .access, .auth, .upstream] else [.lookup, .access, .upstream]
-  let (reply, contacted) := runGate { found := !noroute, denied := denied, authorized := authOk } steps false
+  -- `redirect=` is honoured when it is a number in 300..399 (`strconv.Atoi` + range check in addTarget)
+  let redirectS := getStrD inp "redirect"
+  let redirectCode : Option Nat := if isHTTP then (redirectS.toNat?).filter (fun n => 300 ≤ n && n ≤ 399) else none
+  let steps : List Step := if isHTTP then [.lookup, .access, .auth, .redirect, .upstream] else [.lookup, .access, .upstream]
+  let (reply, contacted) := runGate { found := !noroute, denied := denied, authorized := authOk, redirect := redirectCode.isSome } steps false
   let outcome : String := match reply with
     | .noRoute => if isHTTP then "404" else "closed"
     | .forbidden => if isHTTP then "403" else "closed"
     | .unauthorized => "401"
+    | .redirected => toString (redirectCode.getD 0)
     | .served => if isHTTP then "200" else "echo"
   let m := Json.mkObj [("outcome", outcome), ("hits", if contacted then (1 : Nat) else (0 : Nat))]
   let ioutcome := getStrD impl "outcome"
@@ -231,9 +269,14 @@ def gateH : Handler := fun inp impl => do
   let ref := (impl.getObjVal? "ref").toOption.getD Json.null
   let refused := ioutcome == "403" || ioutcome == "401" || ioutcome == "404" || ioutcome == "closed"
   let admittedOK := if isHTTP then specDecision ref (some false) none else specDecision ref none (some false)
+  let is3xx := ioutcome.length == 3 && ioutcome.startsWith "3"
+  -- … and the route's redirect answer (3xx + Location of the protected destination) is given only to a request
+  -- that passes both gates, on a route that has a redirect; it never touches the upstream
   let spec := (!refused || hits == 0) && (hits == 0 || (admittedOK && authOk && !noroute))
-    && (ioutcome == "200" || ioutcome == "echo" || refused)
-  let tag := proto ++ "-" ++ (match err with | some _ => "badrule" | none => modeOf allow deny) ++ "-" ++ outcome
+    && (ioutcome == "200" || ioutcome == "echo" || refused || is3xx)
+    && (!is3xx || (admittedOK && authOk && !noroute && redirectCode.isSome && hits == 0))
+  let tag := proto ++ "-" ++ (match err with | some _ => "badrule" | none => modeOf allow deny) ++ "-"
+    ++ (if redirectCode.isSome then "redirect-" else "") ++ outcome
   return ({ model := m, agree := m == implCore, spec := spec,
             nontrivial := !rules.isEmpty || getStrD inp "scheme" != "", tag := tag } : Verdict).toJson
 
@@ -254,6 +297,7 @@ def grpcH : Handler := fun inp impl => do
     | .forbidden => "PermissionDenied"
     | .noRoute => "NotFound"
     | .unauthorized => "Unauthenticated"
+    | .redirected => "Redirected"
     | .served => "OK"
   let m := Json.mkObj [("forwarded", contacted), ("code", code)]
   let implCore := Json.mkObj [("forwarded", decide (hits > 0)), ("code", getStrD impl "code")]
@@ -267,5 +311,5 @@ def grpcH : Handler := fun inp impl => do
             nontrivial := !rules.isEmpty || scheme != "", tag := tag } : Verdict).toJson
 
 def streams : List (String × Handler) :=
-  [("c12.parse", parseH), ("c12.decide", decideH), ("c12.tcp", tcpH), ("c12.auth", authH), ("c12.gate", gateH), ("c12.grpc", grpcH)]
+  [("c12.parse", parseH), ("c12.decide", decideH), ("c12.tcp", tcpH), ("c12.auth", authH), ("c12.authseq", authSeqH), ("c12.gate", gateH), ("c12.grpc", grpcH)]
 end Fabio.Driver.C12
